@@ -708,6 +708,141 @@ func main() {
 		}
 		le(c)
 	}
+	// 6b. the rest of the stream API: headers, two-step decimal, unsigned reads, limited int-bytes, decimal arrays
+	nextra := 300
+	if env.Thorough {
+		nextra = 6000
+	}
+	for i := 0; i < nextra; i++ {
+		// WriteHeader / WriteOneWayHeader / WriteSecureHeader over a random program
+		n := rng.Intn(6)
+		ops := make([]op, n)
+		for j := range ops {
+			ops[j] = genOp(rng, false)
+		}
+		src, ver := byte(rng.Intn(256)), byte(rng.Intn(256))
+		pcode, lic := genInt(rng, 8), genInt(rng, 8)
+		oid, key := genInt(rng, 4), genInt(rng, 4)
+		mk := func() (*gio.DataOutputX, string) {
+			out := gio.NewDataOutputX()
+			ss := make([]string, len(ops))
+			for j, o := range ops {
+				write(out, o)
+				ss[j] = o.String()
+			}
+			l := strings.Join(ss, ";")
+			if len(ops) == 0 {
+				l = "-"
+			}
+			return out, l
+		}
+		out, l := mk()
+		which := rng.Intn(3)
+		switch which {
+		case 0:
+			out.WriteHeader(src, ver, pcode, lic)
+		case 1:
+			out.WriteOneWayHeader(src, ver, pcode, lic)
+		}
+		if which < 2 {
+			add(fmt.Sprintf("H %d %d %d %d %s", src, ver, pcode, lic, l), fmt.Sprintf("%s %d", vh.Hex(out.ToByteArray()), out.Size()),
+				[]string{"header:WriteHeader", "header:WriteOneWayHeader"}[which], l)
+		} else {
+			out.WriteSecureHeader(src, ver, pcode, int32(oid), int32(key))
+			add(fmt.Sprintf("HS %d %d %d %d %d %s", src, ver, pcode, oid, key, l), fmt.Sprintf("%s %d", vh.Hex(out.ToByteArray()), out.Size()),
+				"header:WriteSecureHeader", l)
+		}
+		if out.Size() != len(out.ToByteArray()) {
+			rep.Fail("property", "size:after-header", fmt.Sprintf("Size()=%d but %d bytes in the buffer after a header was written", out.Size(), len(out.ToByteArray())),
+				map[string]interface{}{"ops": l, "which": which})
+		}
+		rep.Case(fmt.Sprintf("header:%d:%s", which, l), true)
+		rep.Count("extra:header")
+
+		// ReadByte + ReadDecimalLen
+		v := genInt(rng, 8)
+		d := gio.NewDataOutputX().WriteDecimal(v).ToByteArray()
+		extra := rng.Bytes(rng.Intn(3))
+		data := append(append([]byte{}, d...), extra...)
+		got := "fail"
+		if o := vh.Guard(func() {
+			in := gio.NewDataInputX(data)
+			b := in.ReadByte()
+			x := in.ReadDecimalLen(int(b))
+			got = fmt.Sprintf("%d %d", x, in.Available())
+		}); !o.OK() {
+			got = "fail"
+		}
+		add("DL "+vh.Hex(data), got, "read:ReadDecimalLen", fmt.Sprint(v))
+
+		// unsigned reads of signed writes
+		iv := genInt(rng, 4)
+		b4 := append(gio.NewDataOutputX().WriteInt(int32(iv)).ToByteArray(), extra...)
+		add("U 4 "+vh.Hex(b4), fmt.Sprintf("%d %d", gio.NewDataInputX(b4).ReadUnsignedInt(), len(extra)), "read:ReadUnsignedInt", fmt.Sprint(iv))
+		sv := genInt(rng, 2)
+		b2 := append(gio.NewDataOutputX().WriteShort(int16(sv)).ToByteArray(), extra...)
+		add("U 2 "+vh.Hex(b2), fmt.Sprintf("%d %d", gio.NewDataInputX(b2).ReadUnsignedShort(), len(extra)), "read:ReadUnsignedShort", fmt.Sprint(sv))
+
+		// ReadIntBytesLimit
+		pl := genBytes(rng, false, 2000)
+		ib := append(gio.NewDataOutputX().WriteIntBytes(pl).ToByteArray(), extra...)
+		mx := rng.PickInt([]int{0, len(pl) - 1, len(pl), len(pl) + 1, 1 << 20})
+		if mx < 0 {
+			mx = 0
+		}
+		got = "fail"
+		vh.Guard(func() {
+			in := gio.NewDataInputX(ib)
+			x := in.ReadIntBytesLimit(mx)
+			got = fmt.Sprintf("%s %d", vh.Hex(x), in.Available())
+		})
+		add(fmt.Sprintf("BL %d %s", mx, vh.Hex(ib)), got, "read:ReadIntBytesLimit", fmt.Sprintf("len=%d max=%d", len(pl), mx))
+
+		// decimal arrays (written as a decimal count followed by decimals)
+		na := genLen(rng)
+		if na > 400 {
+			na = 400
+		}
+		xs := make([]int64, na)
+		wide := rng.Chance(50)
+		for j := range xs {
+			if wide {
+				xs[j] = genInt(rng, 8)
+			} else {
+				xs[j] = genInt(rng, 4)
+			}
+		}
+		ao := gio.NewDataOutputX()
+		ao.WriteDecimal(int64(len(xs)))
+		for _, x := range xs {
+			ao.WriteDecimal(x)
+		}
+		ab := append([]byte{}, ao.ToByteArray()...)
+		add("WDA "+ints(xs), vh.Hex(ab), "encode:decimal-array", ints(xs))
+		abx := append(append([]byte{}, ab...), extra...)
+		got = "fail"
+		vh.Guard(func() {
+			in := gio.NewDataInputX(abx)
+			x := in.ReadDecimalArray()
+			got = fmt.Sprintf("%s %d", ints(x), in.Available())
+		})
+		add("DA "+vh.Hex(abx), got, "read:ReadDecimalArray", ints(xs))
+		got = "fail"
+		vh.Guard(func() {
+			in := gio.NewDataInputX(abx)
+			x := in.ReadDecimalArrayInt()
+			y := make([]int64, len(x))
+			for j := range x {
+				y[j] = int64(x[j])
+			}
+			got = fmt.Sprintf("%s %d", ints(y), in.Available())
+		})
+		add("DI "+vh.Hex(abx), got, "read:ReadDecimalArrayInt", ints(xs))
+		rep.Count("extra:reads")
+		if len(lines) >= 4000 {
+			flush()
+		}
+	}
 	// 7. thorough: every 24-bit and a stride of 32-bit patterns, implementation round trip vs arithmetic mirror
 	if env.Thorough {
 		bad := 0
